@@ -2,16 +2,32 @@
    the Python AST of types.py / utils.py on every run (harness/pytrans.py) and proved equal to the
    model here.  A change to IntRange.is_empty / intersects / difference or to lazy_factorial /
    lazy_choose breaks one of these lemmas (or leaves GenLogic without the definition: fail closed). *)
+From Coq Require Import ZArith Bool Lia.
 From Ka Require Import Model.Comb Gen.GenLogic.
 Local Open Scope Z_scope.
 
+(* first by conversion; if the source was rewritten into an equivalent shape, by case analysis on every comparison
+   (so a harmless restructuring of these functions still proves, a change of meaning does not) *)
+Ltac cmp_cases :=
+  repeat match goal with
+         | |- context [?x <? ?y] => destruct (Z.ltb_spec x y)
+         | |- context [?x <=? ?y] => destruct (Z.leb_spec x y)
+         | |- context [?x =? ?y] => destruct (Z.eqb_spec x y)
+         end; cbn [negb andb orb app]; try reflexivity; try (exfalso; lia).
+Ltac same_as_source defs :=
+  first [ reflexivity
+        | intros; repeat match goal with r : range |- _ => destruct r end;
+          autounfold with src; cbn [lo hi]; cmp_cases ].
+#[local] Hint Unfold is_empty g_is_empty intersects g_intersects difference g_difference
+                     lazy_factorial g_lazy_factorial lazy_choose g_lazy_choose nonempty_ranges : src.
+
 Lemma is_empty_is_source : forall r, is_empty r = g_is_empty r.
-Proof. reflexivity. Qed.
+Proof. same_as_source tt. Qed.
 Lemma intersects_is_source : forall a b, intersects a b = g_intersects a b.
-Proof. reflexivity. Qed.
+Proof. same_as_source tt. Qed.
 Lemma difference_is_source : forall s o, difference s o = g_difference s o.
-Proof. reflexivity. Qed.
+Proof. same_as_source tt. Qed.
 Lemma lazy_factorial_is_source : forall n, lazy_factorial n = g_lazy_factorial n.
-Proof. reflexivity. Qed.
+Proof. same_as_source tt. Qed.
 Lemma lazy_choose_is_source : forall n k, lazy_choose n k = g_lazy_choose n k.
-Proof. reflexivity. Qed.
+Proof. same_as_source tt. Qed.
